@@ -18,7 +18,8 @@ def header(m):
 def render(ms):
     out = MAGIC
     for m in ms:
-        out += header(m) + m["data"] + (b"\n" if len(m["data"]) % 2 else b"")
+        # data is padded to even length; the format does not say with what (ar(1) writes a newline)
+        out += header(m) + m["data"] + (m.get("pad", b"\n") if len(m["data"]) % 2 else b"")
     return out
 
 
@@ -50,7 +51,7 @@ def member(rng, name_len=None, size=None, blank=False):
     if size is None:
         size = rng.choice([0, 1, 2, 3, 59, 60, 61, rng.randrange(0, 400), rng.randrange(0, 5000)])
     data = bytes(rng.randrange(256) for _ in range(size))
-    return {"name": name, "slash": slash,
+    return {"name": name, "slash": slash, "pad": rng.choice([b"\n", b"\n", b"\n", b"\x00", b" ", b"`", b"!"]),
             "ts": b"" if blank else str(rng.randrange(0, 10**10)).encode(),
             "uid": b"" if blank else str(rng.randrange(0, 100000)).encode(),
             "gid": b"" if blank else str(rng.randrange(0, 100000)).encode(),
